@@ -68,10 +68,12 @@ REQUIRED_TAGS = ['op=insert', 'op=refine', 'op=raise', 'op=lower', 'op=reverse',
                  'op=split', 'op=append', 'op=makeper', 'op=lowerper', 'op=affine', 'op=section', 'op=extrude', 'op=clone', 'op=identical',
                  'pardim=1', 'pardim=2', 'pardim=3', 'rational', 'periodic-dir', 'len>=8', 'pool>=3', 'err:ValueError',
                  'ctor=valid-open', 'ctor=valid-periodic', 'ctor=decreasing', 'ctor=too-few', 'ctor=order<=0',
-                 'ctor=periodic-mismatch', 'ctor=within-tol', 'ctor=beyond-tol', 'ctor=gap', 'wf=true',
+                 'ctor=periodic-mismatch', 'ctor=within-tol', 'ctor=beyond-tol', 'ctor=gap', 'ctor=short-periodic', 'ctor=wide-periodic', 'wf=true',
                  'stream=small-periodic', 'small-periodic:n<p+k', 'small-periodic:n+1<=p+k',
                  'insert=periodic', 'insert=open', 'split=periodic', 'split=open', 'raise=open', 'raise=periodic', 'raise:pardim=1',
-                 'raise:pardim=2', 'lower=open', 'append=equal-orders', 'append=unequal-orders', 'identical=unequal-orders']
+                 'raise:pardim=2', 'lower=open', 'append=equal-orders', 'append=unequal-orders', 'identical=unequal-orders',
+                 'acc=compared', 'acc=getitem-IndexError', 'acc=flat-index-F-order', 'acc=flat-index-curve',
+                 'acc=evaluated-on-domain', 'acc=reconstructed']
 ASSUMPTIONS = ['histories are generated with the real library in the loop (state-aware choice of arguments); the generated '
                'specs are concrete and replayable']
 
@@ -84,6 +86,10 @@ CLASS_EXTRUDE_MUT = 'extrude-mutates-operand'                # C11 (model follow
 CLASS_CTOR_GAP = 'constructor-accepts-non-periodic-knot-vector'   # C08
 CLASS_LOWER_WEIGHTS = 'lower-order-nonpositive-weights'
 CLASS_MAKEPER_SHORT = 'make-periodic-short-direction-shape-mismatch'   # fewer than order+continuity functions
+# BSplineBasis(p, knots, k) with 2p <= len(knots) < p+k+1 (only possible for k >= p-1): the periodic test indexes
+# knots[-p-k-1+i] outside the array -> IndexError, where the property demands ValueError.  The model `Basis.mk?`
+# reads those positions with a default (`getD`) and answers ok / ValueError.
+CLASS_CTOR_INDEXERROR = 'constructor-indexerror-short-periodic'
 # periodic insert_knot into a basis with n < p+k functions: on the PINNED code the ghost-knot repair reads knots it has
 # already overwritten; for the smallest bases this breaks the knot structure itself (ghost knots, weights 0), not only
 # the geometry.  The Lean model mirrors that repair loop statement by statement, so this label is given ONLY when the
@@ -402,6 +408,69 @@ def _extras(sp, obj):
 # ---------------------------------------------------------------------------------------------
 # running a history on the real library (shared by generation, run_impl and the oracle)
 
+def _probes(n):
+    return [0, 1, n // 2, n - 1, -1, -n, n, -n - 1, n + 3]
+
+
+def _try(f):
+    try:
+        return f()
+    except Exception as e:  # noqa: BLE001 - the class is the observable
+        return Err(exc_kind(e), str(e)[:120])
+
+
+def _acc_real(sp, obj):
+    """The accessor block of a REAL object, laid out like `encodeAcc` of lean/Splipy/Driver/C10.lean."""
+    def arr(v):
+        a = np.asarray(v, dtype=float)
+        return [list(a.shape), a.reshape(-1).tolist()]
+
+    n = _try(lambda: len(obj))
+    if isinstance(n, Err):
+        return {'len': n}
+    shape = tuple(int(x) for x in obj.shape)
+    acc = {'len': n, 'shape': list(shape),
+           'order': _try(lambda: [int(x) for x in obj.order()]),
+           'knots': _try(lambda: [[float(x) for x in k] for k in obj.knots(with_multiplicities=True)]),
+           'spans': _try(lambda: [[float(x) for x in k] for k in obj.knots()]),
+           'start': _try(lambda: [float(x) for x in obj.start()]),
+           'end': _try(lambda: [float(x) for x in obj.end()])}
+    acc['flat'] = [_try(lambda i=i: np.asarray(obj[i], dtype=float).reshape(-1).tolist()) for i in _probes(n)]
+    multi = []
+    for i in _probes(n):
+        if 0 <= i < n:
+            mi = _try(lambda i=i: tuple(int(x) for x in np.unravel_index(i, shape, order='F')))
+        else:
+            mi = tuple(m + i for m in shape)
+        multi.append(mi if isinstance(mi, Err) else _try(lambda mi=mi: arr(obj[mi])))
+    acc['multi'] = multi
+    ncomp = obj.controlpoints.shape[-1]
+
+    def set1():
+        c = obj.clone()
+        c[n // 2] = [float(k + 1) for k in range(ncomp)]
+        return np.asarray(c.controlpoints, dtype=float).reshape(-1).tolist()
+
+    def set2():
+        c = obj.clone()
+        c[tuple(int(x) for x in np.unravel_index(n // 2, shape, order='F'))] = 7.0
+        return np.asarray(c.controlpoints, dtype=float).reshape(-1).tolist()
+
+    def recon():
+        r = type(obj)(*obj.bases, obj.controlpoints, obj.rational, raw=True)
+        c = obj.clone()
+        return _same_obs(_observables(r), _observables(obj)) and _same_obs(_observables(c), _observables(obj))
+
+    def ev():
+        params = [[float(b.start()), 0.5 * (float(b.start()) + float(b.end())), float(b.end())] for b in obj.bases]
+        with np.errstate(all='ignore'):
+            v = np.asarray(obj.evaluate(*params))
+        return list(v.shape)
+
+    acc['set1'], acc['set2'], acc['recon'], acc['eval'] = _try(set1), _try(set2), _try(recon), _try(ev)
+    return acc
+
+
 def _small_periodic(b):
     return b.periodic >= 0 and b.num_functions() < b.order + b.periodic
 
@@ -504,7 +573,8 @@ def _run(sp, s, with_extras=False, stop_at_failure=False):
     """Returns {'init': [...], 'steps': [...], 'flags': [...]}.
     step = {'err': kind} | {'changed': [[idx, observables, wf failures, extras failures]], 'alias': [idx…]}."""
     pool = [gen.mk_object(sp, o) for o in s['pool']]
-    res = {'init': [[wf_real(o), _extras(sp, o) if with_extras else []] for o in pool], 'steps': [], 'flags': []}
+    res = {'init': [[wf_real(o), _extras(sp, o) if with_extras else [], _acc_real(sp, o) if with_extras else None] for o in pool],
+           'steps': [], 'flags': []}
     snaps = [_observables(o) for o in pool]
     res['pre'] = []
     for ins in s['ops']:
@@ -519,7 +589,8 @@ def _run(sp, s, with_extras=False, stop_at_failure=False):
         step = {'changed': [], 'alias': []}
         for j in changed:
             obs = _observables(pool[j])
-            step['changed'].append([j, obs, wf_real(pool[j]), _extras(sp, pool[j]) if with_extras else []])
+            step['changed'].append([j, obs, wf_real(pool[j]), _extras(sp, pool[j]) if with_extras else [],
+                                    _acc_real(sp, pool[j]) if with_extras else None])
             if j < len(snaps):
                 snaps[j] = obs
             else:
@@ -966,6 +1037,16 @@ def _ctor_cases(rng, n):
                 kn = list(b['knots'])
                 kn[-1] += rng.choice([0.5, 1.0, 0.25])
                 add('gap', p, kn, k, 'by-definition')
+    # periodicity k >= p-1 (outside the admissible range k <= p-2): vectors shorter than p+k+1 (the periodic test runs
+    # off the array: IndexError in the pinned code) and long enough ones (uniform: accepted although k > p-2; else rejected)
+    for p, k, m in [(2, 5, 4), (2, 1, 4), (3, 2, 6), (3, 4, 7), (2, 2, 5), (4, 3, 8), (1, 0, 2), (1, 1, 2), (2, 3, 5)]:
+        add('short-periodic', p, [float(x) for x in range(m)] if rng.random() < 0.5 else sorted(gen.increasing(rng, m)), k, 'by-definition')
+    add('short-periodic', 2, [0, 0, 1, 1], 5, 'by-definition')
+    for p, k in [(2, 1), (3, 2), (2, 3), (3, 4), (1, 0), (4, 3)]:
+        m = p + k + 1 + rng.randint(0, 3)
+        m = max(m, 2 * p)
+        add('wide-periodic', p, [float(x) for x in range(m)], k, 'by-definition')
+        add('wide-periodic', p, gen.increasing(rng, m, uniform=False), k, 'by-definition')
     # the documented example of DESIGN.md / known_findings
     add('gap', 3, [-1, 0, 1, 2, 3, 4, 5], 0, 'by-definition')
     add('valid-periodic', 3, [-1, 0, 0, 1, 2, 3, 3, 4], 0, 'accept')
@@ -1121,6 +1202,91 @@ def _valid_exact(p, knots, k):
     return True
 
 
+def _num_close(a, b, rtol, scale=None):
+    """a: python numbers (nested lists), b: model value (Fractions, nested lists)."""
+    if isinstance(b, list):
+        if not isinstance(a, (list, tuple)) or len(a) != len(b):
+            return False
+        sc = scale if scale is not None else max([1.0] + [abs(x) for x in _flatten(b)])
+        return all(_num_close(x, y, rtol, sc) for x, y in zip(a, b))
+    try:
+        x, y = float(a), float(b)
+    except (TypeError, ValueError):
+        return False
+    sc = scale if scale is not None else max(1.0, abs(y))
+    return abs(x - y) <= rtol * sc
+
+
+def _flatten(v):
+    if isinstance(v, list):
+        return [y for x in v for y in _flatten(x)]
+    try:
+        return [float(v)]
+    except (TypeError, ValueError):
+        return []
+
+
+def to_float(v):
+    return [to_float(x) for x in v] if isinstance(v, list) else float(v)
+
+
+def _cmp_val(name, iv, mv, rtol, exact=False):
+    """One accessor value: implementation (python value or Err) against the model's (value or `err:Class`)."""
+    if isinstance(iv, Err) or is_err(mv):
+        if isinstance(iv, Err) and is_err(mv) and iv.kind == err_kind(mv):
+            return None
+        return '%s: impl %r vs model %s' % (name, iv, str(mv)[:60])
+    if exact:
+        ok = to_float(mv) == to_float(iv) if not isinstance(iv, bool) else (str(mv) == ('true' if iv else 'false'))
+    else:
+        ok = _num_close(iv, mv, rtol)
+    return None if ok else '%s: impl %s vs model %s' % (name, str(iv)[:80], str(to_float(mv) if not isinstance(mv, str) else mv)[:80])
+
+
+def _cmp_acc(acc, macc, cp_rtol, path):
+    """The accessor block (`_acc_real`) against `encodeAcc` of the model."""
+    if acc is None:
+        return None
+    if not (isinstance(macc, list) and len(macc) == 13):
+        return '%s: model accessor block %r' % (path, str(macc)[:80])
+    mlen, msh, mord, mkn, msp, mst, men, mflat, mmulti, mset1, mset2, mrecon, mev = macc
+    if isinstance(acc['len'], Err):
+        return '%s: len(obj) raised %r' % (path, acc['len'])
+    checks = [('len', acc['len'], mlen, True), ('shape', acc['shape'], msh, True), ('order()', acc['order'], mord, True),
+              ('knots(with_multiplicities)', acc['knots'], mkn, False), ('knots()', acc['spans'], msp, False),
+              ('start()', acc['start'], mst, False), ('end()', acc['end'], men, False)]
+    for name, iv, mv, exact in checks:
+        d = _cmp_val(name, iv, mv, KNOT_RTOL if not exact else 0.0, exact)
+        if d:
+            return '%s accessor %s' % (path, d)
+    n = acc['len']
+    if len(acc['flat']) != len(mflat) or len(acc['multi']) != len(mmulti):
+        return '%s: probe count' % path
+    for i, iv, mv in zip(_probes(n), acc['flat'], mflat):
+        d = _cmp_val('obj[%d]' % i, iv, mv, cp_rtol)
+        if d:
+            return '%s accessor %s' % (path, d)
+    for i, iv, mv in zip(_probes(n), acc['multi'], mmulti):
+        if not isinstance(iv, Err) and not is_err(mv):
+            if [int(x) for x in mv[0]] != list(iv[0]):
+                return '%s accessor obj[multi-index of %d]: shape impl %r vs model %r' % (path, i, iv[0], mv[0])
+            iv, mv = iv[1], mv[1]
+        d = _cmp_val('obj[multi-index of %d]' % i, iv, mv, cp_rtol)
+        if d:
+            return '%s accessor %s' % (path, d)
+    for name, iv, mv in (('obj[n//2] = cp', acc['set1'], mset1), ('obj[multi] = scalar', acc['set2'], mset2)):
+        d = _cmp_val(name, iv, mv, cp_rtol)
+        if d:
+            return '%s accessor %s' % (path, d)
+    d = _cmp_val('clone/re-construction equal', acc['recon'], mrecon, 0.0, True)
+    if d:
+        return '%s accessor %s' % (path, d)
+    d = _cmp_val('evaluate(start, mid, end) shape', acc['eval'], mev, 0.0, True)
+    if d:
+        return '%s accessor %s' % (path, d)
+    return None
+
+
 def _cmp_obj(obs, mobj, cp_rtol, path):
     mb, msh, mflat, mrat = mobj
     if len(mb) != len(obs['bases']):
@@ -1170,8 +1336,11 @@ def compare(s, iv, mv):
         return 'model answered %r' % (str(mv)[:200],)
     minit, msteps = mv
     for j, (w, m) in enumerate(zip(iv['init'], minit)):
-        if (not w[0]) != (str(m) == 'true'):
-            return 'start object %d: wf_real %r vs wfB %s' % (j, w[0], m)
+        if (not w[0]) != (str(m[0]) == 'true'):
+            return 'start object %d: wf_real %r vs wfB %s' % (j, w[0], m[0])
+        d = _cmp_acc(w[2], m[1], 1e-9, 'start object %d' % j)
+        if d:
+            return d
     if len(iv['steps']) != len(msteps):
         return 'history ends after %d calls on the implementation, %d in the model (last: impl %s, model %s)' % (
             len(iv['steps']), len(msteps), _short_step(iv['steps'][-1]) if iv['steps'] else '-',
@@ -1191,7 +1360,7 @@ def compare(s, iv, mv):
         if len(st['changed']) != len(ms):
             return 'call %d (%s): %d objects touched/created vs model %d' % (n, ins['op'], len(st['changed']), len(ms))
         cp_rtol = (1e-9 * (1 + n)) * (1e3 ** min(loose, 2))
-        for (j, obs, wf, _ex), (mj, mobj, mwf) in zip(st['changed'], ms):
+        for (j, obs, wf, _ex, acc), (mj, mobj, mwf, macc) in zip(st['changed'], ms):
             if j != int(mj):
                 return 'call %d (%s): pool index %d vs model %s' % (n, ins['op'], j, mj)
             d = _cmp_obj(obs, mobj, cp_rtol, 'call %d (%s) object %d' % (n, ins['op'], j))
@@ -1199,6 +1368,9 @@ def compare(s, iv, mv):
                 return d
             if (not wf) != (str(mwf) == 'true'):
                 return 'call %d (%s) object %d: wf_real says %r, model wfB says %s' % (n, ins['op'], j, wf or 'well formed', mwf)
+            d = _cmp_acc(acc, macc, cp_rtol, 'call %d (%s) object %d' % (n, ins['op'], j))
+            if d:
+                return d
     return None
 
 
@@ -1244,7 +1416,7 @@ def _ctor_oracle(sp, s):
 def _failures_of(res, ops):
     """[(step index or -1, message)] of a `_run(with_extras=True)` result."""
     out = []
-    for j, (wf, ex) in enumerate(res['init']):
+    for j, (wf, ex, _acc) in enumerate(res['init']):
         for m in wf + ex:
             out.append((-1, 'start object %d: %s' % (j, m)))
     for n, st in enumerate(res['steps']):
@@ -1252,7 +1424,7 @@ def _failures_of(res, ops):
             continue
         for j in st['alias']:
             out.append((n, 'pool object %d changed although call %d (%s) did not involve it' % (j, n, ops[n]['op'])))
-        for j, _obs, wf, ex in st['changed']:
+        for j, _obs, wf, ex, _acc in st['changed']:
             for m in wf + ex:
                 out.append((n, 'object %d after call %d (%s): %s' % (j, n, ops[n]['op'], m)))
     return out
@@ -1308,6 +1480,14 @@ def oracle(sp, s):
 
 def classify(s, res=None):
     if s['kind'] == 'ctor':
+        p, k, m = s['order'], max(s['periodic'], -1), len(s['knots'])
+        if p >= 1 and k >= 0 and 2 * p <= m < p + k + 1 and p + k - 1 >= 1:
+            # the only way the periodic test can leave the array; judged by the messages: an IndexError of the real code
+            iv = (res or {}).get('impl')
+            orc = ' '.join((res or {}).get('oracle') or [])
+            if (isinstance(iv, Err) and iv.kind == 'IndexError') or 'raised IndexError' in orc:
+                return CLASS_CTOR_INDEXERROR
+            return None
         return CLASS_CTOR_GAP if s['cls'] == 'gap' or (s['expect'] == 'by-definition' and s['periodic'] >= 0) else None
     try:
         r = _cached_run(_sp(), s)
@@ -1316,9 +1496,8 @@ def classify(s, res=None):
     fs = _failures_of(r, s['ops'])
     upto = fs[0][0] if fs else len(s['ops']) - 1
     first = fs[0][1] if fs else ''
-    if fs and upto >= 0 and CLASS_PER_SMALL in r['flags'][upto] and res is not None and res.get('diff') is None \
-            and res.get('model') is not None:
-        return CLASS_PER_SMALL_STRUCT
+    # (`periodic-small-basis-structure` is fixed with periodic insert_knot: a structural failure on a small
+    #  periodic basis is an unexplained violation again)
     if fs and upto >= 0 and ('not finite' in first or 'weight nan' in first) and s['ops'][upto]['op'] in ('raise', 'append', 'identical'):
         st = r['steps'][upto]
         if 'changed' in st and any(len(c[1]['bases']) == 1 for c in st['changed']):
@@ -1391,6 +1570,16 @@ def tags(s, res):
             pool = max([pool] + [c[0] + 1 for c in st['changed']])
             for c in st['changed']:
                 t.add('wf=true' if not c[2] else 'wf=false')
+                if len(c) > 4 and isinstance(c[4], dict) and 'flat' in c[4]:
+                    t.add('acc=compared')
+                    if any(isinstance(x, Err) and x.kind == 'IndexError' for x in c[4]['flat']):
+                        t.add('acc=getitem-IndexError')
+                    if c[4]['len'] >= 2:
+                        t.add('acc=flat-index-F-order' if len(c[1]['bases']) >= 2 else 'acc=flat-index-curve')
+                    if not isinstance(c[4]['eval'], Err):
+                        t.add('acc=evaluated-on-domain')
+                    if c[4]['recon'] is True:
+                        t.add('acc=reconstructed')
                 if any(b[2] >= 0 for b in c[1]['bases']):
                     t.add('state-periodic')
                 if c[1]['rational']:
